@@ -17,6 +17,14 @@
  *       reply octet, crossed with allocation failure and one stream mutation
  *   vii a valid write request, then an undecodable stream, received into ONE
  *       reused RPMaybeFrame and processed by a lenient caller
+ *   viii every reply kind (the four replies regp_recv sends itself, the replies
+ *       of regp_process incl. every backend verdict) x a sink that answers
+ *       EAGAIN / EINTR / a short write / a zero-length write / a hard error at
+ *       every call position (and a second such answer behind it), octet and
+ *       chunk sinks, strict and lenient caller
+ *   ix  frame lengths straddling 2^15, 2^16, 2^31, 2^32 (lazily generated
+ *       streams): too large for the block, or just fitting a large block;
+ *       reads of 2^16 -+ 1 octets from a large block
  * Families i and iii also run on "tcp + chunk source offering a scratch buffer
  * (getbuffer extension)": the frame then reaches the receiver in chunks of up
  * to 64 octets instead of octet by octet.
@@ -77,16 +85,22 @@ safety(struct drv *d, const char *what)
 
 /* decode the reply stream; -1 if not well-formed */
 static int
-replies(struct drv *d, bool tcp, struct rframe *out, unsigned char *scratch)
+replies_buf(const unsigned char *wire, size_t wn, bool tcp, struct rframe *out, unsigned char *scratch)
 {
     struct rr_frames fr;
-    const int n = rr_unframe(tcp, d->out, d->outlen, scratch, &fr);
+    const int n = rr_unframe(tcp, wire, wn, scratch, &fr);
     if (n < 0)
         return -1;
     for (int i = 0; i < n; ++i)
         if (!rr_reply_ok(rr_verdict(scratch + fr.off[i], fr.len[i], &out[i]), &out[i]))
             return -1;
     return n;
+}
+
+static int
+replies(struct drv *d, bool tcp, struct rframe *out, unsigned char *scratch)
+{
+    return replies_buf(d->out, d->outlen, tcp, out, scratch);
 }
 
 static size_t
@@ -128,6 +142,21 @@ tv_srcmode(int tv)
 
 static size_t blocksizes[16];
 static int nblocksizes;
+
+/* the same ledger behind the allocator's other calling convention (a slab
+ * allocator is not told the block size) */
+static int
+drv_slab_alloc(void *driver, void **m)
+{
+    struct drv *d = driver;
+    return drv_alloc(driver, m, d->blocksize);
+}
+
+static void
+use_slab(struct drv *d)
+{
+    d->alloc = (BlockAllocator)MAKE_SLAB_BLOCKALLOC(d, drv_slab_alloc, drv_free, d->blocksize);
+}
 
 /* ---- family i: frame lengths around the receive capacity ------------------------ */
 static void
@@ -211,6 +240,54 @@ static const struct hv {
     { false, RO_HDCRC | RO_PLCRC, 16, false, "serial+payload-crc-bit" },
 };
 
+/* the oracle for one read request that was received into a block of bsz
+ * octets (capacity cap) behind a header of hdr octets; returns the outcome class */
+static const char *
+judge_read(int nr, const struct rframe *rp, int ncalls, uint32_t bs, size_t ws, size_t cap, size_t hdr, size_t bsz, bool standard)
+{
+    const char *outcome = "?";
+    const uint64_t octets = (uint64_t)bs * ws;
+    /* the answer is a message with a header of its own (up to 16 octets): a read
+     * that fits with it must be served; one that does not even fit behind the
+     * request's header must be refused; in between either is right */
+    const bool fits_with_full_header = octets + 16 <= cap;
+    const bool fits_behind_request = octets + hdr <= cap;
+    const bool is_read_resp = nr == 1 && rp[0].type == RT_READ_RESP && rp[0].seq == 0x0c0d && rp[0].addr == 0x1000;
+    if (nr < 0)
+        mc_fail("C09/reply-well-formed", "the reply to a read request is not a sequence of valid frames");
+    else if (standard && !is_read_resp)
+        mc_fail("C09/read-answered", "%d replies (first type=%u) to a valid read request", nr, nr > 0 ? rp[0].type : 99);
+    else if (!is_read_resp) {
+        /* a non-standard header the receiver did not take as a valid request */
+        outcome = "read-variant-refused";
+        if (ncalls != 0)
+            mc_fail("C09/refused-not-executed", "%d replies, none a read response, but %d memory accesses", nr, ncalls);
+    } else if (rp[0].meta == 0) {
+        outcome = standard ? "read-executed" : "read-variant-executed";
+        if (!fits_behind_request)
+            mc_fail("C09/tx-overflow-response", "a read of %u words (%llu octets) cannot fit capacity %zu behind a %zu-octet header but was acknowledged", bs,
+                    (unsigned long long)octets, cap, hdr);
+        else if (ncalls != 1 || rp[0].plen != octets)
+            mc_fail("C09/read-answered", "acknowledged read: calls=%d payload=%zu octets for %u words", ncalls, rp[0].plen, bs);
+    } else if (rp[0].meta == 5) {
+        outcome = "tx-overflow";
+        const uint32_t val = rp[0].plen == 4 ? ((uint32_t)rp[0].payload[0] << 24 | (uint32_t)rp[0].payload[1] << 16 | (uint32_t)rp[0].payload[2] << 8 | rp[0].payload[3]) : 0;
+        if (fits_with_full_header)
+            mc_fail("C09/read-that-fits-is-served", "a read of %u words fits capacity %zu together with a full response header but got a transmit-overflow response", bs, cap);
+        else if (ncalls != 0)
+            mc_fail("C09/tx-overflow-response", "transmit overflow reported after %d memory accesses", ncalls);
+        else if (rp[0].plen != 4 || (val != cap && val != bsz && val != cap - hdr))
+            mc_fail("C09/tx-overflow-response", "transmit-overflow response carries %zu octets, value %u; buffer size is %zu", rp[0].plen, val, cap);
+    } else if (standard)
+        mc_fail("C09/read-answered", "read answered with response code %u", rp[0].meta);
+    else {
+        outcome = "read-variant-refused";
+        if (ncalls != 0)
+            mc_fail("C09/refused-not-executed", "answered with response code %u after %d memory accesses", rp[0].meta, ncalls);
+    }
+    return outcome;
+}
+
 static void
 family_ii(void)
 {
@@ -245,45 +322,7 @@ family_ii(void)
                     if (safety(&D, "read around the transmit limit")) {
                         struct rframe rp[8];
                         const int nr = replies(&D, tcp, rp, scratch);
-                        const uint64_t octets = (uint64_t)bs * ws;
-                        /* the answer is a message with a header of its own (up to 16 octets): a read
-                         * that fits with it must be served; one that does not even fit behind the
-                         * request's header must be refused; in between either is right */
-                        const bool fits_with_full_header = octets + 16 <= cap;
-                        const bool fits_behind_request = octets + hdr <= cap;
-                        const bool is_read_resp = nr == 1 && rp[0].type == RT_READ_RESP && rp[0].seq == 0x0c0d && rp[0].addr == 0x1000;
-                        if (nr < 0)
-                            mc_fail("C09/reply-well-formed", "the reply to a read request is not a sequence of valid frames");
-                        else if (hv->standard && !is_read_resp)
-                            mc_fail("C09/read-answered", "%d replies (first type=%u) to a valid read request", nr, nr > 0 ? rp[0].type : 99);
-                        else if (!is_read_resp) {
-                            /* a non-standard header the receiver did not take as a valid request */
-                            outcome = "read-variant-refused";
-                            if (D.ncalls != 0)
-                                mc_fail("C09/refused-not-executed", "%d replies, none a read response, but %d memory accesses", nr, D.ncalls);
-                        } else if (rp[0].meta == 0) {
-                            outcome = hv->standard ? "read-executed" : "read-variant-executed";
-                            if (!fits_behind_request)
-                                mc_fail("C09/tx-overflow-response", "a read of %u words (%llu octets) cannot fit capacity %zu behind a %zu-octet header but was acknowledged", bs,
-                                        (unsigned long long)octets, cap, hdr);
-                            else if (D.ncalls != 1 || rp[0].plen != octets)
-                                mc_fail("C09/read-answered", "acknowledged read: calls=%d payload=%zu octets for %u words", D.ncalls, rp[0].plen, bs);
-                        } else if (rp[0].meta == 5) {
-                            outcome = "tx-overflow";
-                            const uint32_t val = rp[0].plen == 4 ? ((uint32_t)rp[0].payload[0] << 24 | (uint32_t)rp[0].payload[1] << 16 | (uint32_t)rp[0].payload[2] << 8 | rp[0].payload[3]) : 0;
-                            if (fits_with_full_header)
-                                mc_fail("C09/read-that-fits-is-served", "a read of %u words fits capacity %zu together with a full response header but got a transmit-overflow response", bs, cap);
-                            else if (D.ncalls != 0)
-                                mc_fail("C09/tx-overflow-response", "transmit overflow reported after %d memory accesses", D.ncalls);
-                            else if (rp[0].plen != 4 || (val != cap && val != bsz && val != cap - hdr))
-                                mc_fail("C09/tx-overflow-response", "transmit-overflow response carries %zu octets, value %u; buffer size is %zu", rp[0].plen, val, cap);
-                        } else if (hv->standard)
-                            mc_fail("C09/read-answered", "read answered with response code %u", rp[0].meta);
-                        else {
-                            outcome = "read-variant-refused";
-                            if (D.ncalls != 0)
-                                mc_fail("C09/refused-not-executed", "answered with response code %u after %d memory accesses", rp[0].meta, D.ncalls);
-                        }
+                        outcome = judge_read(nr, rp, D.ncalls, bs, ws, cap, hdr, bsz, hv->standard);
                     }
                     drv_release(&D);
                     mc_end(true, mc.cur_failed ? "failed" : outcome);
@@ -296,12 +335,13 @@ static void
 family_iii(void)
 {
     unsigned char raw[3][64], wire[600], scratch[DRV_WIRE];
+    for (int slab = 0; slab < 2; ++slab)
     for (int tv = 0; tv < 3; ++tv)
         for (int kinds = 0; kinds < 8; ++kinds)
             for (unsigned mask = 0; mask < 8; ++mask) {
                 const bool tcp = tv != 0;
-                if (!mc_case("iii %s three requests kinds=%d%d%d allocation-fails=%u%u%u", TVN[tv], kinds & 1, (kinds >> 1) & 1, (kinds >> 2) & 1,
-                             mask & 1, (mask >> 1) & 1, (mask >> 2) & 1))
+                if (!mc_case("iii %s %s allocator, three requests kinds=%d%d%d allocation-fails=%u%u%u", TVN[tv], slab ? "slab" : "generic", kinds & 1, (kinds >> 1) & 1,
+                             (kinds >> 2) & 1, mask & 1, (mask >> 1) & 1, (mask >> 2) & 1))
                     continue;
                 size_t wn = 0;
                 for (int k = 0; k < 3; ++k) {
@@ -312,6 +352,8 @@ family_iii(void)
                     wn += frame_wire(tcp, raw[k], n, wire + wn);
                 }
                 drv_init_ex(&D, tcp, true, 128, tv_srcmode(tv));
+                if (slab)
+                    use_slab(&D);
                 D.fail_mask = mask;
                 struct result r;
                 serve(&D, wire, wn, 3, &r);
@@ -725,6 +767,609 @@ family_vii(void)
             }
 }
 
+/* ---- scripted sink, lazily generated source (families viii, ix) --------------------------------- */
+/* What a sink may answer to a write: a request to retry, fewer octets taken
+ * than offered, none taken, a hard error.  (A zero-length answer is only given
+ * to offers of several octets: what it means for a single octet is between
+ * sink_put_octet and its callers, C17 / C08.) */
+enum { SA_EAGAIN, SA_EINTR, SA_SHORT1, SA_SHORTM1, SA_ZERO, SA_EIO, SA_COUNT };
+static const char *SANAME[SA_COUNT] = { "EAGAIN", "EINTR", "a short write of one octet", "a short write of all but one octet", "a zero-length write", "EIO" };
+
+static unsigned char xbuf[1u << 18], xscratch[1u << 18];
+static struct xsink {
+    size_t outlen;
+    long calls, budget;
+    long at[2];
+    int ans[2];
+    int nhit;
+    bool hard_hit, overrun;
+} X;
+
+static ssize_t
+xsink_take(const unsigned char *d, size_t n)
+{
+    if (X.outlen + n > sizeof xbuf) {
+        X.overrun = true;
+        return -EIO;
+    }
+    memcpy(xbuf + X.outlen, d, n);
+    X.outlen += n;
+    return (ssize_t)n;
+}
+
+static ssize_t
+xsink_chunk(void *drv, const void *data, size_t n)
+{
+    (void)drv;
+    const long k = X.calls++;
+    if (k >= X.budget) {
+        X.overrun = true;
+        return -EIO;
+    }
+    for (int i = 0; i < 2; ++i)
+        if (k == X.at[i]) {
+            X.nhit++;
+            switch (X.ans[i]) {
+            case SA_EAGAIN: return -EAGAIN;
+            case SA_EINTR: return -EINTR;
+            case SA_EIO: X.hard_hit = true; return -EIO;
+            case SA_ZERO:
+                if (n > 1)
+                    return 0;
+                break;
+            case SA_SHORT1: return xsink_take(data, n > 1 ? 1 : n);
+            case SA_SHORTM1: return xsink_take(data, n > 1 ? n - 1 : n);
+            }
+        }
+    return xsink_take(data, n);
+}
+
+static int
+xsink_octet(void *drv, unsigned char c)
+{
+    return (int)xsink_chunk(drv, &c, 1);
+}
+
+static bool
+sink_answer_applies(bool octet_sink, int a)
+{
+    /* an octet sink takes the octet or does not */
+    return !(octet_sink && (a == SA_SHORT1 || a == SA_SHORTM1 || a == SA_ZERO));
+}
+
+static unsigned char lazy_scratch[65536];
+static struct lazy {
+    unsigned char pre[48], post[4];
+    size_t npre, npost;
+    unsigned char fill;
+    uint64_t nfill, pos, total, calls, budget;
+    bool overrun;
+} LZ;
+
+/* the stream pre | fill x nfill | post, produced on demand */
+static ssize_t
+lazy_chunk(void *drv, void *outp, size_t n)
+{
+    (void)drv;
+    unsigned char *out = outp;
+    if (++LZ.calls > LZ.budget) {
+        LZ.overrun = true;
+        return -EIO;
+    }
+    if (LZ.pos >= LZ.total)
+        return -ENODATA;
+    uint64_t k = LZ.total - LZ.pos;
+    if (k > n)
+        k = n;
+    size_t i = 0;
+    while (i < k) {
+        const uint64_t q = LZ.pos + i;
+        if (q < LZ.npre)
+            out[i++] = LZ.pre[q];
+        else if (q < LZ.npre + LZ.nfill) {
+            uint64_t run = LZ.npre + LZ.nfill - q;
+            if (run > k - i)
+                run = k - i;
+            memset(out + i, LZ.fill, (size_t)run);
+            i += (size_t)run;
+        } else
+            out[i++] = LZ.post[q - LZ.npre - LZ.nfill];
+    }
+    LZ.pos += k;
+    return (ssize_t)k;
+}
+
+static int
+lazy_octet(void *drv, void *out)
+{
+    return (int)lazy_chunk(drv, out, 1);
+}
+
+static ByteBuffer
+lazy_getbuffer(Source *s)
+{
+    (void)s;
+    ByteBuffer b;
+    byte_buffer_use(&b, lazy_scratch, sizeof lazy_scratch);
+    return b;
+}
+
+/* (re)connect instance d: source as srcmode says (lazy: the generated stream
+ * instead of d's input), sink = the scripted sink */
+static void
+connect_x(struct drv *d, bool tcp, int srcmode, bool lazy, bool octet_sink, long at1, int a1, long at2, int a2)
+{
+    Source src;
+    Sink snk;
+    if (srcmode == DRV_SRC_OCTET)
+        octet_source_init(&src, lazy ? lazy_octet : drv_src_octet, d);
+    else
+        chunk_source_init(&src, lazy ? lazy_chunk : drv_src_chunk, d);
+    if (srcmode == DRV_SRC_CHUNK_GETBUFFER)
+        src.ext.getbuffer = lazy ? lazy_getbuffer : drv_src_getbuffer;
+    memset(&X, 0, sizeof X);
+    X.at[0] = at1; X.ans[0] = a1;
+    X.at[1] = at2; X.ans[1] = a2;
+    X.budget = 1L << 20;
+    if (octet_sink)
+        octet_sink_init(&snk, xsink_octet, &X);
+    else
+        chunk_sink_init(&snk, xsink_chunk, &X);
+    regp_use_channel(&d->p, tcp ? RP_EP_TCP : RP_EP_SERIAL, src, snk);
+}
+
+static bool
+safety_x(struct drv *d, const char *what)
+{
+    if (X.overrun || LZ.overrun) {
+        mc_fail("C09/hang", "%s: driver call budget exceeded (the library keeps calling the %s)", what, X.overrun ? "sink" : "source");
+        return false;
+    }
+    return safety(d, what);
+}
+
+static size_t
+build_frame(unsigned char *raw, unsigned type, unsigned options, uint16_t seq, uint32_t addr, uint32_t bsize, const unsigned char *pl, size_t plen, bool break_hd, bool break_pl)
+{
+    struct rframe f;
+    memset(&f, 0, sizeof f);
+    f.type = type;
+    f.options = options;
+    f.seq = seq;
+    f.addr = addr;
+    f.bsize = bsize;
+    f.payload = pl;
+    f.plen = plen;
+    return rr_build(raw, &f, break_hd, break_pl);
+}
+
+/* ---- family viii: every reply kind x sink answers ------------------------------------------------- */
+enum { EK_OTHER, EK_RXOVERFLOW, EK_BUSY, EK_TXOVERFLOW, EK_META_ENC };
+enum { SC_RXOVERFLOW, SC_BUSY, SC_EMPTY, SC_SHORT, SC_BADVERSION, SC_HDRCRC, SC_PLCRC, SC_PLSIZE, SC_WORDSIZE, SC_TXOVERFLOW, SC_READ_ACK, SC_WRITE_ACK,
+       SC_READ_VERDICT, SC_WRITE_VERDICT = SC_READ_VERDICT + 11, SC_COUNT = SC_WRITE_VERDICT + 11 };
+
+static const char *
+scen_name(int sc)
+{
+    static const char *N[] = { "a write request too large for the block", "a read request meeting an allocation failure", "an empty frame", "a frame of five octets",
+                               "a read request with a wrong version", "a read request with a wrong header checksum", "a write request with a wrong payload checksum",
+                               "a write request with a payload longer than announced", "an octet read request to sixteen bit memory", "a read request too large to answer",
+                               "a read request", "a write request" };
+    static char buf[64];
+    if (sc < SC_READ_VERDICT)
+        return N[sc];
+    snprintf(buf, sizeof buf, "a %s request answered by the memory with code %d", sc < SC_WRITE_VERDICT ? "read" : "write", (sc - SC_READ_VERDICT) % 11 + 1);
+    return buf;
+}
+
+struct scen {
+    unsigned char wire[400];
+    size_t wn;
+    unsigned fail_mask;
+    RPResponse verdict;
+    int expect;
+    unsigned rtype;
+};
+
+#define VIII_SEQ 0x3344
+#define VIII_ADDR 0x204u
+
+static void
+scen_build(int sc, bool tcp, struct scen *s)
+{
+    static unsigned char pl[128];
+    unsigned char raw[200];
+    for (size_t i = 0; i < sizeof pl; ++i)
+        pl[i] = (unsigned char)(0x21 + i);
+    memset(s, 0, sizeof *s);
+    s->verdict = RP_RESP_ACK;
+    s->expect = EK_OTHER;
+    const unsigned std = tcp ? 0 : RO_HDCRC, stdpl = tcp ? 0 : (RO_HDCRC | RO_PLCRC);
+    size_t n = 0;
+    switch (sc) {
+    case SC_RXOVERFLOW:
+        n = build_frame(raw, RT_WRITE_REQ, RO_W16 | stdpl, VIII_SEQ, VIII_ADDR, 60, pl, 120, false, false);
+        s->expect = EK_RXOVERFLOW; s->rtype = RT_WRITE_RESP;
+        break;
+    case SC_BUSY:
+        n = build_frame(raw, RT_READ_REQ, RO_W16 | std, VIII_SEQ, VIII_ADDR, 2, NULL, 0, false, false);
+        s->fail_mask = 1; s->expect = EK_BUSY; s->rtype = RT_READ_RESP;
+        break;
+    case SC_EMPTY:
+        n = 0;
+        s->expect = EK_META_ENC;
+        break;
+    case SC_SHORT:
+        (void)build_frame(raw, RT_READ_REQ, RO_W16 | std, VIII_SEQ, VIII_ADDR, 2, NULL, 0, false, false);
+        n = 5;
+        s->expect = EK_META_ENC;
+        break;
+    case SC_BADVERSION:
+        n = build_frame(raw, RT_READ_REQ, RO_W16 | std, VIII_SEQ, VIII_ADDR, 2, NULL, 0, false, false);
+        raw[1] |= 0x01;
+        break;
+    case SC_HDRCRC:
+        n = build_frame(raw, RT_READ_REQ, RO_W16 | RO_HDCRC, VIII_SEQ, VIII_ADDR, 2, NULL, 0, true, false);
+        break;
+    case SC_PLCRC:
+        n = build_frame(raw, RT_WRITE_REQ, RO_W16 | std | RO_PLCRC, VIII_SEQ, VIII_ADDR, 2, pl, 4, false, true);
+        break;
+    case SC_PLSIZE:
+        n = build_frame(raw, RT_WRITE_REQ, RO_W16 | stdpl, VIII_SEQ, VIII_ADDR, 3, pl, 4, false, false);
+        break;
+    case SC_WORDSIZE:
+        n = build_frame(raw, RT_READ_REQ, std, VIII_SEQ, VIII_ADDR, 2, NULL, 0, false, false);
+        break;
+    case SC_TXOVERFLOW:
+        n = build_frame(raw, RT_READ_REQ, RO_W16 | std, VIII_SEQ, VIII_ADDR, 100, NULL, 0, false, false);
+        s->expect = EK_TXOVERFLOW; s->rtype = RT_READ_RESP;
+        break;
+    default: {
+        const bool write = sc == SC_WRITE_ACK || sc >= SC_WRITE_VERDICT;
+        if (write)
+            n = build_frame(raw, RT_WRITE_REQ, RO_W16 | stdpl, VIII_SEQ, VIII_ADDR, 2, pl, 4, false, false);
+        else
+            n = build_frame(raw, RT_READ_REQ, RO_W16 | std, VIII_SEQ, VIII_ADDR, 2, NULL, 0, false, false);
+        if (sc >= SC_READ_VERDICT)
+            s->verdict = (RPResponse)((sc - SC_READ_VERDICT) % 11 + 1);
+    } break;
+    }
+    s->wn = frame_wire(tcp, raw, n, s->wire);
+}
+
+struct vrun {
+    int rrc, prc, errid;
+    bool hadframe;
+};
+
+/* the documented serving loop, once: receive; process (a strict caller only
+ * after a successful receive, a lenient one always); release what was returned */
+static void
+viii_run(const struct scen *s, int tv, bool octet_sink, int style, long at1, int a1, long at2, int a2, struct vrun *v)
+{
+    const bool tcp = tv != 0;
+    const bool lenient = style & 1;
+    drv_init_ex(&D, tcp, true, 128, tv_srcmode(tv));
+    if (style & 2)
+        use_slab(&D);
+    D.fail_mask = s->fail_mask;
+    D.verdict = s->verdict;
+    D.verdict_addr = VIII_ADDR;
+    connect_x(&D, tcp, tv_srcmode(tv), false, octet_sink, at1, a1, at2, a2);
+    drv_feed(&D, s->wire, s->wn);
+    RPMaybeFrame mf;
+    memset(&mf, 0, sizeof mf);
+    memset(v, 0, sizeof *v);
+    v->rrc = regp_recv(&D.p, &mf);
+    v->errid = mf.error.id;
+    v->hadframe = mf.frame != NULL;
+    if (v->rrc >= 0 || lenient)
+        v->prc = regp_process(&D.p, &mf);
+    if (mf.frame != NULL)
+        regp_free(&D.p, mf.frame);
+    mc_trans(3);
+}
+
+static long g_answered, g_gaveup;
+
+static bool
+viii_judge(const struct scen *s, int tv, const struct vrun *v, const char *what)
+{
+    const bool tcp = tv != 0;
+    mc_log("%s: recv rc=%d error.id=%d frame=%d process rc=%d calls=%d sink calls=%ld reply=%zu", what, v->rrc, v->errid, v->hadframe, v->prc, D.ncalls, X.calls, X.outlen);
+    bool ok = safety_x(&D, what);
+    /* A sink that failed for good, or a library that reported failure: nothing
+     * is said about what was sent.  Otherwise the sink took, in the end, every
+     * octet it was offered and both calls reported success: a frame the
+     * statement says "is answered with" a certain response has been answered
+     * with it.  (Meta messages and the other replies may be best effort once
+     * the sink hesitates: their form is only demanded of the undisturbed
+     * exchange, like in the other families.) */
+    const bool disturbed = X.nhit > 0;
+    if (ok && !X.hard_hit && v->rrc >= 0 && v->prc >= 0) {
+        struct rframe rp[8];
+        const int nr = replies_buf(xbuf, X.outlen, tcp, rp, xscratch);
+        g_answered++;
+        if (s->expect == EK_META_ENC && v->errid != EBADMSG) {
+            mc_fail("C09/short-frame-is-bad-header", "%s: error.id=%d (expected bad header encoding)", what, v->errid);
+            ok = false;
+        } else if (s->expect == EK_RXOVERFLOW || s->expect == EK_BUSY || s->expect == EK_TXOVERFLOW) {
+            const unsigned code = s->expect == EK_RXOVERFLOW ? 4 : s->expect == EK_BUSY ? 6 : 5;
+            if (nr != 1 || rp[0].type != s->rtype || rp[0].meta != code || rp[0].seq != VIII_SEQ || rp[0].addr != VIII_ADDR) {
+                mc_fail(s->expect == EK_RXOVERFLOW ? "C09/rx-overflow-response" : s->expect == EK_BUSY ? "C09/busy-response" : "C09/tx-overflow-response",
+                        "%s: receive and process reported success; %d replies, first type=%u code=%u seq=%04x addr=%x (expected one response with code %u echoing the request)", what, nr,
+                        nr > 0 ? rp[0].type : 99, nr > 0 ? rp[0].meta : 99, nr > 0 ? rp[0].seq : 0, nr > 0 ? rp[0].addr : 0, code);
+                ok = false;
+            }
+        } else if (!disturbed) {
+            if (nr < 0) {
+                mc_fail("C09/reply-well-formed", "%s: the octets sent back are not a sequence of valid frames", what);
+                ok = false;
+            } else if (s->expect == EK_META_ENC && (nr != 1 || rp[0].type != RT_META || rp[0].meta != 1)) {
+                mc_fail("C09/short-frame-is-bad-header", "%s: %d replies (expected the header-encoding meta message)", what, nr);
+                ok = false;
+            }
+        }
+    } else if (ok)
+        g_gaveup++;
+    drv_release(&D);
+    return ok;
+}
+
+static void
+family_viii(void)
+{
+    char what[220];
+    for (int sc = 0; sc < SC_COUNT; ++sc)
+        for (int tv = 0; tv < 3; ++tv)
+            for (int osink = 0; osink < 2; ++osink)
+                for (int a1 = 0; a1 < SA_COUNT; ++a1) {
+                    if (!sink_answer_applies(osink, a1))
+                        continue;
+                    if (!mc_case("viii %s: %s, the %s sink answers %s at call k, alone and with a second deviation at %s; strict/lenient caller x generic/slab allocator", TVN[tv], scen_name(sc),
+                                 osink ? "octet" : "chunk", SANAME[a1], g_th ? "every later call" : "call k+1"))
+                        continue;
+                    struct scen s;
+                    struct vrun v;
+                    scen_build(sc, tv != 0, &s);
+                    long reached = 0;
+                    bool ok = true;
+                    g_answered = g_gaveup = 0;
+                    for (int style = 0; style < 4 && ok; ++style) {
+                        /* style: strict / lenient caller x generic / slab allocator */
+                        static const char *STYLE[4] = { "strict caller, generic allocator", "lenient caller, generic allocator", "strict caller, slab allocator", "lenient caller, slab allocator" };
+                        /* the undisturbed exchange first */
+                        viii_run(&s, tv, osink, style, -1, 0, -1, 0, &v);
+                        snprintf(what, sizeof what, "%s, sink undisturbed, %s", scen_name(sc), STYLE[style]);
+                        ok = viii_judge(&s, tv, &v, what);
+                        for (long at = 0; ok; ++at) {
+                            viii_run(&s, tv, osink, style, at, a1, -1, 0, &v);
+                            if (X.nhit == 0) {
+                                drv_release(&D);
+                                break; /* the exchange needs fewer sink calls */
+                            }
+                            reached++;
+                            snprintf(what, sizeof what, "%s, sink answers %s at call %ld, %s", scen_name(sc), SANAME[a1], at, STYLE[style]);
+                            ok = viii_judge(&s, tv, &v, what);
+                            for (int a2 = 0; a2 < SA_COUNT && ok; ++a2) {
+                                if (!sink_answer_applies(osink, a2))
+                                    continue;
+                                for (long at2 = at + 1; ok && (g_th || at2 == at + 1); ++at2) {
+                                    viii_run(&s, tv, osink, style, at, a1, at2, a2, &v);
+                                    if (X.nhit < 2) {
+                                        drv_release(&D);
+                                        break;
+                                    }
+                                    snprintf(what, sizeof what, "%s, sink answers %s at call %ld and %s at call %ld, %s", scen_name(sc), SANAME[a1], at, SANAME[a2], at2, STYLE[style]);
+                                    ok = viii_judge(&s, tv, &v, what);
+                                }
+                            }
+                        }
+                    }
+                    mc_log("%ld call positions reached; %ld exchanges reported success, %ld gave up or met a hard error", reached, g_answered, g_gaveup);
+                    /* outcome classes name the script, not the library's reaction to it */
+                    mc_end(reached > 0, mc.cur_failed ? "failed" : a1 == SA_EIO ? "reply-sink-hard-error" : a1 == SA_ZERO ? "reply-sink-zero-length-write"
+                           : (a1 == SA_SHORT1 || a1 == SA_SHORTM1) ? "reply-sink-short-write" : "reply-sink-retry-request");
+                }
+}
+
+/* ---- family ix: lengths that straddle 2^15, 2^16, 2^31, 2^32 ------------------------------------------- */
+#define IX_SEQ 0x5566
+#define IX_ADDR 0x40u
+
+/* a write request (octet semantics, or sixteen bit if w16) of raw length L on
+ * the lazily generated stream; returns the number of payload octets */
+static uint64_t
+lazy_write_request(bool tcp, bool w16, uint64_t L)
+{
+    memset(&LZ, 0, sizeof LZ);
+    const size_t hdr = tcp ? 12 : 16;
+    const uint64_t plen = L - hdr;
+    LZ.fill = 0x55;
+    LZ.nfill = plen;
+    unsigned char raw[16];
+    /* payload checksum of fill x plen, without holding the payload */
+    uint16_t plcrc = 0;
+    if (!tcp)
+        for (uint64_t i = 0; i < plen; ++i)
+            plcrc = rr_crc(plcrc, &LZ.fill, 1);
+    const unsigned options = (w16 ? RO_W16 : 0) | (tcp ? 0 : (RO_HDCRC | RO_PLCRC));
+    const unsigned motv = (RT_WRITE_REQ << 4) | (options << 8);
+    const uint32_t bsize = (uint32_t)(plen / (w16 ? 2u : 1u));
+    size_t n = 0;
+    raw[n++] = (unsigned char)(motv >> 8);
+    raw[n++] = (unsigned char)motv;
+    raw[n++] = IX_SEQ >> 8;
+    raw[n++] = IX_SEQ & 0xff;
+    for (int sh = 24; sh >= 0; sh -= 8)
+        raw[n++] = (unsigned char)(IX_ADDR >> sh);
+    for (int sh = 24; sh >= 0; sh -= 8)
+        raw[n++] = (unsigned char)(bsize >> sh);
+    if (!tcp) {
+        const unsigned char pc[2] = { (unsigned char)(plcrc >> 8), (unsigned char)plcrc };
+        const uint16_t c = rr_crc(rr_crc(0, raw, 12), pc, 2);
+        raw[n++] = (unsigned char)(c >> 8);
+        raw[n++] = (unsigned char)c;
+        raw[n++] = pc[0];
+        raw[n++] = pc[1];
+    }
+    if (tcp) {
+        LZ.npre = rr_varint(LZ.pre, L);
+        memcpy(LZ.pre + LZ.npre, raw, n);
+        LZ.npre += n;
+    } else {
+        /* (the header octets used here need no escaping: checked) */
+        for (size_t i = 0; i < n; ++i)
+            if (raw[i] == 0xc0 || raw[i] == 0xdb)
+                mc_broken("family ix: header octet %zu needs SLIP escaping", i);
+        memcpy(LZ.pre, raw, n);
+        LZ.npre = n;
+        LZ.post[0] = 0xc0;
+        LZ.npost = 1;
+    }
+    LZ.total = LZ.npre + LZ.nfill + LZ.npost;
+    LZ.budget = LZ.total + 1000;
+    return plen;
+}
+
+static void
+family_ix(void)
+{
+    const size_t F = sizeof(RPFrame);
+    /* (a) too large for the block */
+    static const struct { uint64_t len; int tier; bool slow_paths; } LEN[] = {
+        /* tier 0: quick and thorough; slow_paths: also octet by octet (serial, tcp without scratch buffer) */
+        { (1ull << 15) - 1, 0, true }, { 1ull << 15, 0, true }, { (1ull << 15) + 1, 0, true },
+        { (1ull << 16) - 1, 0, true }, { 1ull << 16, 0, true }, { (1ull << 16) + 1, 0, true },
+        { (1ull << 24) - 1, 1, true }, { 1ull << 24, 1, true }, { (1ull << 24) + 1, 1, true },
+        { (1ull << 31) - 1, 0, false }, { 1ull << 31, 0, false }, { (1ull << 31) + 1, 0, false }, { (1ull << 31) + 12345, 0, false },
+        { (1ull << 32) - 1, 0, false }, { 1ull << 32, 0, false }, { (1ull << 32) + 1, 0, false }, { (1ull << 32) + 77, 0, false },
+        { (1ull << 32) + (1ull << 31), 1, false }, { (1ull << 32) + (1ull << 31) + 1, 1, false }, { (1ull << 33) + 1, 1, false },
+    };
+    static const size_t BS[2] = { 128, 4096 };
+    for (unsigned li = 0; li < sizeof LEN / sizeof *LEN; ++li)
+        for (int tv = 0; tv < 3; ++tv)
+            for (int bi = 0; bi < 2; ++bi) {
+                if (LEN[li].tier > (g_th ? 1 : 0))
+                    continue;
+                if (tv != 2 && !LEN[li].slow_paths)
+                    continue;
+                const bool tcp = tv != 0;
+                if (!mc_case("ix blocksize=%zu %s write8 frame-length=%llu (generated stream)", BS[bi], TVN[tv], (unsigned long long)LEN[li].len))
+                    continue;
+                drv_init_ex(&D, tcp, false, BS[bi], tv_srcmode(tv));
+                (void)lazy_write_request(tcp, false, LEN[li].len);
+                connect_x(&D, tcp, tv_srcmode(tv), true, false, -1, 0, -1, 0);
+                RPMaybeFrame mf;
+                memset(&mf, 0, sizeof mf);
+                const int rrc = regp_recv(&D.p, &mf);
+                const int prc = rrc >= 0 ? regp_process(&D.p, &mf) : 0;
+                const int errid = mf.error.id;
+                if (mf.frame != NULL)
+                    regp_free(&D.p, mf.frame);
+                mc_trans(3);
+                mc_log("recv rc=%d error.id=%d process rc=%d calls=%d consumed=%llu of %llu reply=%zu", rrc, errid, prc, D.ncalls, (unsigned long long)LZ.pos,
+                       (unsigned long long)LZ.total, X.outlen);
+                mc_log_hex("reply", xbuf, X.outlen < 64 ? X.outlen : 64);
+                if (safety_x(&D, "frame far beyond the capacity")) {
+                    struct rframe rp[8];
+                    const int nr = replies_buf(xbuf, X.outlen, tcp, rp, xscratch);
+                    if (D.ncalls != 0)
+                        mc_fail("C09/overflowing-frame-not-executed", "frame of %llu octets exceeds capacity %zu but caused %d memory accesses", (unsigned long long)LEN[li].len,
+                                BS[bi] - F, D.ncalls);
+                    else if (nr < 0)
+                        mc_fail("C09/reply-well-formed", "the reply to an overflowing frame is not a sequence of valid frames");
+                    else if (nr != 1 || rp[0].type != RT_WRITE_RESP || rp[0].meta != 4 || rp[0].seq != IX_SEQ || rp[0].addr != IX_ADDR)
+                        mc_fail("C09/rx-overflow-response", "frame of %llu octets into capacity %zu: recv rc=%d error.id=%d, %d replies, first type=%u code=%u seq=%04x (expected one receive-overflow response)",
+                                (unsigned long long)LEN[li].len, BS[bi] - F, rrc, errid, nr, nr > 0 ? rp[0].type : 99, nr > 0 ? rp[0].meta : 99, nr > 0 ? rp[0].seq : 0);
+                }
+                drv_release(&D);
+                mc_end(true, mc.cur_failed ? "failed" : "giant-overflow-answered");
+            }
+    /* (b) a frame of 2^16 -+ 1 octets that just fits a large block */
+    for (int d = -1; d <= 1; ++d)
+        for (int slack = 0; slack < 2; ++slack)
+            for (int tv = 0; tv < 3; ++tv)
+                for (int w16 = 0; w16 < 2; ++w16) {
+                    const bool tcp = tv != 0;
+                    const uint64_t L = (uint64_t)((1L << 16) + d);
+                    const size_t hdr = tcp ? 12 : 16;
+                    if (w16 && ((L - hdr) & 1))
+                        continue;
+                    if (!mc_case("ix blocksize=%zu (capacity %zu) %s write%d frame-length=%llu (generated stream)", F + (size_t)L + (size_t)slack, (size_t)L + (size_t)slack, TVN[tv],
+                                 w16 ? 16 : 8, (unsigned long long)L))
+                        continue;
+                    drv_init_ex(&D, tcp, w16, F + (size_t)L + (size_t)slack, tv_srcmode(tv));
+                    const uint64_t plen = lazy_write_request(tcp, w16, L);
+                    connect_x(&D, tcp, tv_srcmode(tv), true, false, -1, 0, -1, 0);
+                    RPMaybeFrame mf;
+                    memset(&mf, 0, sizeof mf);
+                    const int rrc = regp_recv(&D.p, &mf);
+                    const int prc = rrc >= 0 ? regp_process(&D.p, &mf) : 0;
+                    const int errid = mf.error.id;
+                    if (mf.frame != NULL)
+                        regp_free(&D.p, mf.frame);
+                    mc_trans(3);
+                    mc_log("recv rc=%d error.id=%d process rc=%d calls=%d reply=%zu", rrc, errid, prc, D.ncalls, X.outlen);
+                    if (safety_x(&D, "large frame that fits")) {
+                        struct rframe rp[8];
+                        const int nr = replies_buf(xbuf, X.outlen, tcp, rp, xscratch);
+                        if (rrc < 0 || errid != 0 || D.ncalls != 1 || nr != 1 || rp[0].meta != 0)
+                            mc_fail("C09/frame-that-fits-is-served", "frame of %llu octets fits capacity %zu: rc=%d error.id=%d calls=%d replies=%d code=%u", (unsigned long long)L,
+                                    (size_t)L + (size_t)slack, rrc, errid, D.ncalls, nr, nr > 0 ? rp[0].meta : 99);
+                        else if (D.call[0].bsize != plen / (w16 ? 2u : 1u) || !D.call[0].write)
+                            mc_fail("C09/payload-as-announced", "backend was asked for a block of %zu units; %llu payload octets were sent", D.call[0].bsize, (unsigned long long)plen);
+                    }
+                    drv_release(&D);
+                    mc_end(true, mc.cur_failed ? "failed" : "large-frame-served");
+                }
+    /* (c) reads of about 2^16 octets, and around the transmit limit, from a block that can hold them */
+    {
+        unsigned char raw[64], wire[160];
+        const size_t bsz = F + 16 + 65536 + 40, cap = bsz - F;
+        for (unsigned hi = 0; hi < 2; ++hi)
+            for (int w16 = 0; w16 < 2; ++w16) {
+                const struct hv *hv = &HV[hi];
+                const bool tcp = hv->tcp;
+                const size_t ws = w16 ? 2 : 1;
+                uint32_t list[24];
+                int nl = 0;
+                for (int d = -2; d <= 2; ++d)
+                    list[nl++] = (uint32_t)((65536 + d * (int)ws) / (int)ws);
+                for (int d = -3; d <= 3; ++d) {
+                    list[nl++] = (uint32_t)((cap - 16 + (size_t)(d * (int)ws)) / ws);
+                    list[nl++] = (uint32_t)((cap - hv->hdr + (size_t)(d * (int)ws)) / ws);
+                }
+                for (int k = 0; k < nl; ++k) {
+                    const uint32_t bs = list[k];
+                    bool dup = false;
+                    for (int j = 0; j < k; ++j)
+                        dup |= list[j] == bs;
+                    if (dup)
+                        continue;
+                    if (!mc_case("ix blocksize=%zu (capacity %zu) %s read%d block-size=%u", bsz, cap, hv->name, w16 ? 16 : 8, bs))
+                        continue;
+                    const size_t n = build_request(raw, tcp, false, w16, 0x1000, bs, 0, 0x0c0d);
+                    const size_t wn = frame_wire(tcp, raw, n, wire);
+                    drv_init(&D, tcp, w16, bsz, !tcp);
+                    memset(&LZ, 0, sizeof LZ);
+                    connect_x(&D, tcp, tcp ? DRV_SRC_CHUNK : DRV_SRC_OCTET, false, false, -1, 0, -1, 0);
+                    struct result r;
+                    serve(&D, wire, wn, 1, &r);
+                    mc_log("recv rc=%d error.id=%d process rc=%d calls=%d reply=%zu", r.rrc[0], r.errid[0], r.prc[0], D.ncalls, X.outlen);
+                    const char *outcome = "?";
+                    if (safety_x(&D, "large read")) {
+                        struct rframe rp[8];
+                        const int nr = replies_buf(xbuf, X.outlen, tcp, rp, xscratch);
+                        outcome = judge_read(nr, rp, D.ncalls, bs, ws, cap, hv->hdr, bsz, true);
+                    }
+                    drv_release(&D);
+                    mc_end(true, mc.cur_failed ? "failed" : !strcmp(outcome, "read-executed") ? "large-read-executed" : !strcmp(outcome, "tx-overflow") ? "large-read-tx-overflow" : outcome);
+                }
+            }
+    }
+}
+
 int
 main(int argc, char **argv)
 {
@@ -748,7 +1393,9 @@ main(int argc, char **argv)
     family_v();
     family_vi();
     family_vii();
-    mc_finish(true, g_th ? "block sizes {F+1,F+2,F+3,F+11..F+17,F+32,128,129,200,257}; i: every frame length up to capacity+6; ii: every read size up to capacity+8; iii: 2 transports x 8 kind triples x 8 allocation scripts; iv: 8 corpus frames x every position x 13 octets x allocation, every pair of positions x 13x13 octets, truncations, short frames, concatenations, 12 TCP prefixes x 3 tails; v: all strings of length 0..3 over 13 octets; vi: source error at every octet x 2 codes x allocation x every single-octet mutation, sink error at every reply octet; vii: 2 transports x 4 undecodable streams after a valid request on one reused RPMaybeFrame x first frame freed/held; i and iii also with a chunk source offering a scratch buffer; ii: 6 request header variants, sizes up to capacity+8 and 8 sizes >= 2^31-1"
-                         : "block sizes {F+1,F+2,F+11..F+17,F+32,128,129}; i: every frame length up to capacity+6; ii: every read size up to capacity+8; iii: 2 transports x 8 kind triples x 8 allocation scripts; iv: 6 corpus frames x every position x 13 octets x allocation, truncations, short frames, concatenations, 12 TCP prefixes x 3 tails; v: all strings of length 0..3 over 13 octets; vi: source error at every octet x 2 codes x allocation x 4 mutations, sink error at every reply octet; vii: 2 transports x 4 undecodable streams after a valid request on one reused RPMaybeFrame x first frame freed/held; i and iii also with a chunk source offering a scratch buffer; ii: 6 request header variants, sizes up to capacity+8 and 8 sizes >= 2^31-1");
+    family_viii();
+    family_ix();
+    mc_finish(true, g_th ? "block sizes {F+1,F+2,F+3,F+11..F+17,F+32,128,129,200,257}; i: every frame length up to capacity+6; ii: every read size up to capacity+8; iii: 2 transports x 8 kind triples x 8 allocation scripts; iv: 8 corpus frames x every position x 13 octets x allocation, every pair of positions x 13x13 octets, truncations, short frames, concatenations, 12 TCP prefixes x 3 tails; v: all strings of length 0..3 over 13 octets; vi: source error at every octet x 2 codes x allocation x every single-octet mutation, sink error at every reply octet; vii: 2 transports x 4 undecodable streams after a valid request on one reused RPMaybeFrame x first frame freed/held; i and iii also with a chunk source offering a scratch buffer; ii: 6 request header variants, sizes up to capacity+8 and 8 sizes >= 2^31-1; iii also with a slab allocator; viii: 34 reply kinds (4 replies of regp_recv, 8 of regp_process, 11 memory verdicts x read/write) x 3 transport variants x octet/chunk sink x {EAGAIN, EINTR, short write 1, short write n-1, zero-length write of several octets, EIO} at every sink call x a second answer at every later call x strict/lenient caller x generic/slab allocator; ix: generated streams, frame lengths 2^15-1..2^15+1, 2^16-1..2^16+1, 2^24-1..2^24+1 (3 transport variants), 2^31-1..2^31+1, 2^31+12345, 2^32-1..2^32+1, 2^32+77, 2^32+2^31, 2^32+2^31+1, 2^33+1 (tcp with a 64 KiB scratch buffer) into blocks of 128 and 4096, frames of 2^16-1..2^16+1 octets into blocks with room for exactly them / one to spare, reads of 2^16 -+ 2 units and around the transmit limit from a block of 2^16+56 octets of capacity"
+                         : "block sizes {F+1,F+2,F+11..F+17,F+32,128,129}; i: every frame length up to capacity+6; ii: every read size up to capacity+8; iii: 2 transports x 8 kind triples x 8 allocation scripts; iv: 6 corpus frames x every position x 13 octets x allocation, truncations, short frames, concatenations, 12 TCP prefixes x 3 tails; v: all strings of length 0..3 over 13 octets; vi: source error at every octet x 2 codes x allocation x 4 mutations, sink error at every reply octet; vii: 2 transports x 4 undecodable streams after a valid request on one reused RPMaybeFrame x first frame freed/held; i and iii also with a chunk source offering a scratch buffer; ii: 6 request header variants, sizes up to capacity+8 and 8 sizes >= 2^31-1; iii also with a slab allocator; viii: 34 reply kinds (4 replies of regp_recv, 8 of regp_process, 11 memory verdicts x read/write) x 3 transport variants x octet/chunk sink x {EAGAIN, EINTR, short write 1, short write n-1, zero-length write of several octets, EIO} at every sink call x a second answer at the following call x strict/lenient caller x generic/slab allocator; ix: generated streams, frame lengths 2^15-1..2^15+1, 2^16-1..2^16+1 (3 transport variants), 2^31-1..2^31+1, 2^31+12345, 2^32-1..2^32+1, 2^32+77 (tcp with a 64 KiB scratch buffer) into blocks of 128 and 4096, frames of 2^16-1..2^16+1 octets into blocks with room for exactly them / one to spare, reads of 2^16 -+ 2 units and around the transmit limit from a block of 2^16+56 octets of capacity");
     return 0;
 }
